@@ -32,7 +32,7 @@ ASSUMPTIONS = [
     "chirp_length (extra, USB2 7.1.7.5 TUCH >= 1 ms) is only asserted when bus_busy was low since the reset was reported",
 ]
 BOUNDS = "quick: constants B K=26 all inputs free (two assertion families), constants A K=43 with the reset and the " \
-         "device chirp scripted in cycles 0..12 and every input free from cycle 13; thorough: constants B K=44 and " \
+         "device chirp scripted in cycles 0..12 and every input free from cycle 13, constants A K=80 free from cycle 37 (after a scripted clean handshake); thorough: constants B K=44 and " \
          "constants A K=50 all free, A K=56 free from cycle 13, A K=84 free from cycle 37 (after a scripted clean " \
          "handshake); static audit of the real constants"
 OUTSIDE = "real-time constants in the sequential clauses (scaled only; the real values are audited statically); " \
@@ -330,6 +330,10 @@ def queries(tier):
                   covers=["hs_entry", "short_chirp_state"], layer=_prefix_layer(13), split=False, timeout=600,
                   desc="constants A, layer: scripted reset + device chirp in cycles 0..12, every input free from cycle 13: "
                        "host chirp counting (glitches, short states), HS entry, timeout, leaving HS on restriction"),
+            Query("bmc_A_hsreset", fa, 80, asserts=["no_chirp_restricted", "reset_active", "suspend", "hs_entry_chirp"],
+                  covers=["reset_hs", "suspend_hs", "hs_resume"], layer=_prefix_layer(37), split=False, timeout=600,
+                  desc="constants A, layer: scripted clean reset + HS handshake in cycles 0..36, every input free from cycle "
+                       "37: HS reset vs suspend discrimination, restriction during the window, resume from HS suspend"),
             Query("cosim_A", fa, 0, kind="cosim", cosim_cycles=150),
             Query("cosim_B", fb, 0, kind="cosim", cosim_cycles=150),
         ]
